@@ -61,6 +61,26 @@ theorem cancel_fans_out (c : Cfg) (s : State) (id : Nat) (h : s.wfStatus.isCompl
          ++ [.push (.completeWorkflow 0)]] := by
   simp [hCancelWorkflow, h]
 
+/-- F40: a `CancelWorkflow` that is (re)delivered after the workflow finished - the worker died between the commit
+    that set the flag and the fan-out commit - still queues a `CancelStage` for every stage that is not complete, so
+    a stage that never started does not stay NOT_STARTED in a canceled workflow. -/
+theorem cancel_after_finish_cancels_leftovers (c : Cfg) (s : State) (id i : Nat)
+    (h : s.wfStatus.isComplete = true) (hc : s.canceled = true) (hi : i < c.n)
+    (hs : (s.stage i).status.isComplete = false) :
+    Eff.push (.cancelStage i) ∈ (hCancelWorkflow c s id).flatten ∧ Eff.mark id ∈ (hCancelWorkflow c s id).flatten := by
+  have hne : ((List.range c.n).filter (fun i => !(s.stage i).status.isComplete)).isEmpty = false := by
+    rw [List.isEmpty_eq_false_iff_exists_mem]
+    exact ⟨i, List.mem_filter.mpr ⟨List.mem_range.mpr hi, by simp [hs]⟩⟩
+  simp only [hCancelWorkflow, h, hc, hne]
+  simp
+  exact ⟨hi, hs⟩
+
+/-- ... and when the flag was never set (the request arrives after the workflow finished) it is consumed without effect. -/
+theorem cancel_after_finish_without_flag_is_inert (c : Cfg) (s : State) (id : Nat)
+    (h : s.wfStatus.isComplete = true) (hc : s.canceled = false) :
+    hCancelWorkflow c s id = [[.mark id]] := by
+  simp [hCancelWorkflow, h, hc]
+
 /-- `CancelStage` drives every incomplete stage to CANCELED together with its unfinished tasks. -/
 theorem cancel_stage_cancels (c : Cfg) (s : State) (id i : Nat) (h : (s.stage i).status.isComplete = false) :
     ∃ st', hCancelStage c s id i = [[.setStage i st', .mark id]] ∧ st'.status = .canceled ∧
